@@ -66,6 +66,21 @@ def run(tier, rep):
                                                       "first_diff": next((i for i, (a, b) in enumerate(zip(got, m["want"])) if a != b), min(len(got), len(m["want"])))})
         if last["then"] != "eof":
             rep.reject("NoCleanEnd", facts, tr.replay_of(tid, v))
+    # the reader's own socket wrapping (RTCMReader(socket)): delivered = emitted, no recording
+    from pyrtcm import RTCMReader
+
+    for i in range(12 if quick else 100):
+        data, items = gen_streams.mixed_stream(rnd, pool, rnd.randint(3, 14), well_formed=True, crlf_only=True)
+        seg = sockdouble.critical_segmentation(rnd, [it[1] for it in items]) if i % 2 else sockdouble.segmentation(rnd, len(data), "mixed")
+        sock = sockdouble.ScriptedSocket(data, seg)
+        try:
+            got = [bytes(r) for r, _ in RTCMReader(sock, bufsize=rnd.choice([7, 512, 4096]), quitonerror=0)]
+        finally:
+            sock.close()
+        want = [it[1] for it in items if it[0] == "frame"]
+        rep.case(digest([data.hex(), str(seg), "autowrap"]))
+        if got != want:
+            rep.reject("DeliveredNotEmitted", {"engine": "framer", "kind": "socket-autowrap"}, {"stream_hex": data.hex(), "recv_script": seg, "emitted": len(want), "delivered": len(got)})
     t = tr.traces[2]
     rep.sample({"kind": tr.meta[3]["kind"], "items": tr.meta[3]["nitems"], "frames_emitted": tr.meta[3]["nframes"],
                 "delivered": len(tr.results[3]), "verdict": verdicts[3][1]})
